@@ -380,6 +380,13 @@ pub fn gen_c04(tier: Tier, seed: u64, em: &mut Emitter, cfg: i64) {
 pub fn gen_c05(tier: Tier, seed: u64, em: &mut Emitter, cfg: i64) {
     let mut r = Rng::new(seed ^ 0xC05);
     gen_convs(50, cfg, tier, &mut r, em);
+    // the checked constructor is the conversion in from the representation type
+    for (t, (_, repr, _)) in NEWTYPES.iter().enumerate() {
+        let top = if *repr == "u8" { 255 } else { 65535 };
+        for v in 0..=top {
+            em.emit_k("new", 41, vec![cfg, t as i64, v]);
+        }
+    }
     gen_strings(tier, em);
     for (t, (_, _, max)) in NEWTYPES.iter().enumerate() {
         let t = t as i64;
